@@ -6,6 +6,7 @@ import KadDHT.Driver.C07
 import KadDHT.Driver.C09
 import KadDHT.Driver.C09v
 import KadDHT.Driver.C10
+import KadDHT.Driver.C13
 open KadDHT.Driver
 
 def main (args : List String) : IO UInt32 := do
@@ -13,6 +14,7 @@ def main (args : List String) : IO UInt32 := do
   | ["C18"] => runPure C18.handle; return 0
   | ["C18v"] => runPure C18v.handle; return 0
   | ["C19"] => runLoop C19.step {}; return 0
+  | ["C13"] => runLoop C13.step (KadDHT.Mode.init .auto); return 0
   | ["C10"] => runPure C10.handle; return 0
   | ["C09v"] => runLoop C09v.step {}; return 0
   | ["C09"] => runLoop C09.step ({}, {}); return 0
